@@ -232,9 +232,17 @@ func (r *c12Runner) run(c map[string]any) (rec c12M) {
 		rec["dbg"] = ds
 	}
 	if yaml {
-		y := r.exec(dir, append([]string{"--yaml-output"}, base...), nil, nil)
+		yargs := []string{"--yaml-output"}
+		ind, hasInd := c["yind"].(float64)
+		if hasInd {
+			yargs = append(yargs, "--indent", fmt.Sprint(int(ind)))
+		}
+		y := r.exec(dir, append(yargs, base...), nil, nil)
 		text := c12FromBytes(y["out"])
 		m := c12M{"s1": y["status"], "text": y["out"], "err1": y["err"]}
+		if hasInd {
+			m["ind"] = int(ind)
+		}
 		if y["status"] == 0 {
 			b := r.exec(dir, []string{"--yaml-input", "-c", "."}, nil, []byte(text))
 			m["s2"], m["back"], m["err2"] = b["status"], b["out"], b["err"]
